@@ -371,7 +371,43 @@ func TestVerifNegotiate(t *testing.T) {
 	defer out.close()
 	master := vNewRng(vSeed())
 
-	vPureFeeCases(out, master, vCases(1200, 30000))
+	vPureFeeCases(out, master, vCases(1200, 15000))
+
+	if vTier() == "thorough" {
+		// exhaustive small universes for the fee functions
+		for l := int64(0); l <= 120; l++ {
+			for rem := int64(0); rem <= 120; rem++ {
+				out.emit(map[string]any{"k": "range", "l": l, "r": rem,
+					"res": feeInAcceptableRange(btcutil.Amount(l),
+						btcutil.Amount(rem))})
+			}
+		}
+		for f := int64(0); f <= 3000; f++ {
+			for _, up := range []bool{true, false} {
+				out.emit(map[string]any{"k": "ratchet", "fee": f, "up": up,
+					"res": int64(ratchetFee(btcutil.Amount(f), up))})
+			}
+		}
+		for ideal := int64(0); ideal <= 24; ideal++ {
+			for last := int64(0); last <= 24; last++ {
+				for rem := int64(0); rem <= 24; rem++ {
+					out.emit(map[string]any{"k": "compromise",
+						"ideal": ideal, "last": last, "remote": rem,
+						"res": int64(calcCompromiseFee(wire.OutPoint{},
+							btcutil.Amount(ideal), btcutil.Amount(last),
+							btcutil.Amount(rem)))})
+				}
+			}
+		}
+		// every pair of ideal fees in [100, 135]^2 on real ChanClosers
+		for a := int64(100); a <= 135; a++ {
+			for b := int64(100); b <= 135; b++ {
+				vRunNeg(t, out, master.fork(uint64(7_000_000+a*1000+b)),
+					vNegCase{idealO: a, idealR: b, openerSat: -1,
+						openerShuts: (a+b)%2 == 0, fuel: 400})
+			}
+		}
+	}
 
 	grid := []int64{100, 101, 109, 110, 111, 129, 130, 131, 143, 144, 200,
 		253, 1000, 1299, 1300, 1301, 2000, 5000, 12345, 100000, 3000000}
@@ -382,7 +418,7 @@ func TestVerifNegotiate(t *testing.T) {
 		idealO: 1, idealR: 5, capO: 1000, capR: 1000, openerSat: -1,
 		openerShuts: true, fuel: 60})
 
-	n := vCases(110, 3000)
+	n := vCases(110, 2000)
 	for i := 0; i < n; i++ {
 		r := master.fork(uint64(6_000_000 + i))
 		nc := vNegCase{openerSat: -1, openerShuts: r.bool(), fuel: 400}
